@@ -347,6 +347,85 @@ fn vreplay_decipher() {
   assert!(agree(r, &payload, noutputs), "real decipher disagrees with the specification reference");
 }
 
+/// Native replay of a round-trip counterexample: VREPLAY_RT holds `key=value` tokens
+/// (div, premine, rune, spacers, symbol, etching=1, terms=1, amount, cap, h0, h1, o0, o1,
+/// turbo, mint=b:t, ptr, e=b:t:amount:output ...).  The runestone is enciphered by the real
+/// encipher into a real script, put into a 2-output transaction and deciphered.
+#[cfg(all(test, vreplay))]
+#[test]
+fn vreplay_roundtrip() {
+  let Ok(spec) = std::env::var("VREPLAY_RT") else {
+    return;
+  };
+  let mut etching = Etching::default();
+  let mut terms = Terms::default();
+  let (mut has_etching, mut has_terms) = (false, false);
+  let mut r = Runestone::default();
+  for tok in spec.split_whitespace() {
+    let (k, v) = tok.split_once('=').unwrap();
+    let id = |s: &str| {
+      let mut p = s.split(':');
+      (p.next().unwrap().parse::<u64>().unwrap(), p.next().unwrap().parse::<u32>().unwrap())
+    };
+    match k {
+      "etching" => has_etching = true,
+      "terms" => has_terms = true,
+      "div" => etching.divisibility = Some(v.parse().unwrap()),
+      "premine" => etching.premine = Some(v.parse().unwrap()),
+      "rune" => etching.rune = Some(Rune(v.parse().unwrap())),
+      "spacers" => etching.spacers = Some(v.parse().unwrap()),
+      "symbol" => etching.symbol = Some(char::from_u32(v.parse().unwrap()).unwrap()),
+      "turbo" => etching.turbo = v == "1",
+      "amount" => terms.amount = Some(v.parse().unwrap()),
+      "cap" => terms.cap = Some(v.parse().unwrap()),
+      "h0" => terms.height.0 = Some(v.parse().unwrap()),
+      "h1" => terms.height.1 = Some(v.parse().unwrap()),
+      "o0" => terms.offset.0 = Some(v.parse().unwrap()),
+      "o1" => terms.offset.1 = Some(v.parse().unwrap()),
+      "mint" => {
+        let (block, tx) = id(v);
+        r.mint = Some(RuneId { block, tx });
+      }
+      "ptr" => r.pointer = Some(v.parse().unwrap()),
+      "e" => {
+        let mut p = v.split(':');
+        let block = p.next().unwrap().parse().unwrap();
+        let tx = p.next().unwrap().parse().unwrap();
+        let amount = p.next().unwrap().parse().unwrap();
+        let output = p.next().unwrap().parse().unwrap();
+        r.edicts.push(Edict { id: RuneId { block, tx }, amount, output });
+      }
+      _ => panic!("unknown key {k}"),
+    }
+  }
+  if has_etching {
+    if has_terms {
+      etching.terms = Some(terms);
+    }
+    r.etching = Some(etching);
+  }
+  let script = r.encipher();
+  let tx = tx_with_script(script.as_bytes(), 1);
+  let got = Runestone::decipher(&tx);
+  // expected: the same runestone with its edicts stably sorted by id (insertion sort)
+  let mut want = Runestone { edicts: Vec::new(), etching: r.etching, mint: r.mint, pointer: r.pointer };
+  for e in &r.edicts {
+    let mut at = want.edicts.len();
+    let mut i = 0;
+    while i < want.edicts.len() {
+      let o = want.edicts[i].id;
+      if (e.id.block, e.id.tx) < (o.block, o.tx) {
+        at = i;
+        break;
+      }
+      i += 1;
+    }
+    want.edicts.insert(at, *e);
+  }
+  println!("roundtrip -> {:?}", got);
+  assert!(got == Some(Artifact::Runestone(want)), "decipher(encipher(r)) differs from r");
+}
+
 #[cfg(kani)]
 mod proofs {
   use super::*;
